@@ -2,6 +2,8 @@
 import ast
 import builtins
 
+import os
+
 from hypothesis import strategies as st
 
 from .. import common, gen, runner, sut
@@ -195,6 +197,8 @@ def judge(case):
 
 def judge_case(record):
     c = record["case"]
+    if c.get("child_env") and not os.environ.get("PYAB_IN_CHILD"):
+        return runner.child_judge("C13", [c], env_extra=dict(c["child_env"], PYAB_IN_CHILD="1"))["results"][0]
     return (judge_spelling(c) if "pick" in c else judge(c))["viol"]
 
 
@@ -246,6 +250,27 @@ def run(ctx, rec):
         runner.direct_run(ctx, rec, "experiments-named-like-skeleton-helpers", [c for c in named_cases()], judge)
         if rec.violations:
             return
+    if ctx.shard == 0:
+        # text stays data whatever the host's environment says: every variable the library is seen to consult (none at all on
+        # the pinned tree) is set to a few plausible values in child interpreters that judge a slice of the catalogue
+        from .. import envspy
+
+        sl = [c for i, c in enumerate(fixed_cases()) if i % 3 == 0][:40]
+        spy = runner.child_judge("C13", sl, env_extra={"PYAB_ENVSPY": "1"})
+        rec.evaluations += len(sl)
+        rec.count("environment-variables-consulted-by-the-library", len(spy.get("env_keys", [])))
+        for c, msgs in zip(sl, spy["results"]):
+            if msgs:
+                rec.violation("payload-catalogue-in-a-child-interpreter", c, msgs)
+                return
+        for key in spy.get("env_keys", [])[:6]:
+            for val in envspy.VALUES[:4]:
+                res = runner.child_judge("C13", sl, env_extra={key: val})
+                rec.evaluations += len(sl)
+                for c, msgs in zip(sl, res["results"]):
+                    if msgs:
+                        rec.violation("payload-catalogue-with-environment", dict(c, child_env={key: val}), ["with %s=%s in the environment: %s" % (key, val, m) for m in msgs])
+                        return
     runner.hyp_run(ctx, rec, "generated", cases(), judge, ctx.n(150, 1200))
     if rec.violations:
         return
